@@ -86,10 +86,39 @@ package config
 //@   loop 1 invariant forall i int :: 0 <= i && i < len(ret) ==> WfCIDR(ret[i]) && net.is4(ret[i].IP) == net.is4(start)
 
 // ---- C08: the pools of an accepted configuration have pairwise disjoint address sets ----
+// ---- C02: which Services a pool's allocateTo section admits ----
+// NsListed: namespace x is listed. NsSel: x is the name of a namespace matched by one of the namespace selectors.
+// (the list is read in the entry state: validateLabelSelectorDuplicate's frame covers all string lists)
+//@ pred NsListed(p metallbv1beta1.IPAddressPool, x string) := exists q int :: 0 <= q && q < len(p.Spec.AllocateTo.Namespaces) && p.Spec.AllocateTo.Namespaces[q] == x
+//@ pred NsSelUpTo(p metallbv1beta1.IPAddressPool, namespaces []corev1.Namespace, n int, x string) := exists j int, k int :: 0 <= j && j < n && 0 <= k && k < len(namespaces) && namespaces[k].Name == x
+//@         && metav1.AsSel(p.Spec.AllocateTo.NamespaceSelectors[j]).Matches(labels.Set(namespaces[k].Labels))
 //@ func addressPoolServiceAllocationsFromCR
-//@   trusted
 //@   ensures result0 == nil || fresh(result0)
-//@   modifies fresh *ServiceAllocation, fresh map[string]sets.Empty, fresh []labels.Selector, fresh []interface{}
+//@   ensures [none] p.Spec.AllocateTo == nil ==> result0 == nil && result1 == nil
+//@   ensures [made] p.Spec.AllocateTo != nil && result1 == nil ==> result0 != nil && result0.Priority == p.Spec.AllocateTo.Priority && result0.Namespaces != nil
+//@   ensures [namespaces] p.Spec.AllocateTo != nil && result1 == nil ==> (forall x string :: (x in result0.Namespaces) == (old(NsListed(p, x)) || NsSelUpTo(p, namespaces, len(p.Spec.AllocateTo.NamespaceSelectors), x)))
+//@   ensures [everything] p.Spec.AllocateTo != nil && result1 == nil && len(p.Spec.AllocateTo.Namespaces) == 0 && len(p.Spec.AllocateTo.NamespaceSelectors) == 0 && len(p.Spec.AllocateTo.ServiceSelectors) == 0 ==>
+//@       len(result0.ServiceSelectors) == 1 && result0.ServiceSelectors[0] == labels.Everything()
+//@   ensures [selectors] p.Spec.AllocateTo != nil && result1 == nil && !(len(p.Spec.AllocateTo.Namespaces) == 0 && len(p.Spec.AllocateTo.NamespaceSelectors) == 0 && len(p.Spec.AllocateTo.ServiceSelectors) == 0) ==>
+//@       len(result0.ServiceSelectors) == len(p.Spec.AllocateTo.ServiceSelectors) && (forall i int :: 0 <= i && i < len(p.Spec.AllocateTo.ServiceSelectors) ==> result0.ServiceSelectors[i] == metav1.AsSel(p.Spec.AllocateTo.ServiceSelectors[i]))
+//@   modifies []string, fresh *ServiceAllocation, fresh map[string]sets.Empty, fresh []labels.Selector, fresh []interface{}
+//@   loop 1 binds poolNs
+//@   loop 1 invariant poolNamespaces != nil && fresh(poolNamespaces)
+//@   loop 1 invariant (len(poolNamespaces) == 0) == (iter == 0)
+//@   loop 1 invariant forall x string :: (x in poolNamespaces) == (exists k int :: 0 <= k && k < iter && old(p.Spec.AllocateTo.Namespaces[k]) == x)
+//@   loop 2 binds i
+//@   loop 2 invariant serviceAllocations != nil && fresh(serviceAllocations) && serviceAllocations.Namespaces != nil && fresh(serviceAllocations.Namespaces) && serviceAllocations.Priority == p.Spec.AllocateTo.Priority && len(serviceAllocations.ServiceSelectors) == 0
+//@   loop 2 invariant forall x string :: (x in serviceAllocations.Namespaces) == (old(NsListed(p, x)) || NsSelUpTo(p, namespaces, iter, x))
+//@   loop 3 binds ns
+//@   loop 3 invariant serviceAllocations != nil && fresh(serviceAllocations) && serviceAllocations.Namespaces != nil && fresh(serviceAllocations.Namespaces) && serviceAllocations.Priority == p.Spec.AllocateTo.Priority && len(serviceAllocations.ServiceSelectors) == 0
+//@   loop 3 invariant 0 <= idx(2) && idx(2) < len(p.Spec.AllocateTo.NamespaceSelectors) && l == metav1.AsSel(p.Spec.AllocateTo.NamespaceSelectors[idx(2)])
+//@   loop 3 invariant forall x string :: (x in serviceAllocations.Namespaces) == (old(NsListed(p, x)) || NsSelUpTo(p, namespaces, idx(2), x)
+//@       || (exists k int :: 0 <= k && k < iter && namespaces[k].Name == x && l.Matches(labels.Set(namespaces[k].Labels))))
+//@   loop 4 binds i#2
+//@   loop 4 invariant serviceAllocations != nil && fresh(serviceAllocations) && serviceAllocations.Namespaces != nil && serviceAllocations.Priority == p.Spec.AllocateTo.Priority
+//@   loop 4 invariant (serviceAllocations.ServiceSelectors == nil || fresh(serviceAllocations.ServiceSelectors)) && len(serviceAllocations.ServiceSelectors) == iter
+//@   loop 4 invariant forall x string :: (x in serviceAllocations.Namespaces) == (old(NsListed(p, x)) || NsSelUpTo(p, namespaces, len(p.Spec.AllocateTo.NamespaceSelectors), x))
+//@   loop 4 invariant forall i int :: 0 <= i && i < iter ==> serviceAllocations.ServiceSelectors[i] == metav1.AsSel(p.Spec.AllocateTo.ServiceSelectors[i])
 
 // AllWf: every network of the list is canonical.
 //@ pred AllWf(cs []*net.IPNet) := forall i int :: 0 <= i && i < len(cs) ==> WfCIDR(cs[i])
